@@ -1,17 +1,28 @@
 """Generic rule: results depend on the arguments only.
 
-A value stored by a function into a module-level (or class-level) container is a cache shared
-between calls; its key must depend on every parameter the stored value depends on, otherwise a
-later call with different arguments receives a stale entry and the result depends on call
-order.  A cache whose key covers all dependencies is accepted (silent).
+A value stored by a function into a module-level container, or by a method into a container
+held by the instance (``self.X = {}``), is a cache shared between calls; its key must depend on
+every parameter the stored value depends on, and at the granularity the value uses it: a key
+that contains only ``p.attr`` while the value is computed from ``p`` itself (or from another
+attribute of ``p``) identifies different arguments with each other.  Otherwise a later call with
+different arguments receives a stale entry and the result depends on call order.  A cache whose
+key covers all dependencies is accepted (silent).
 """
 import ast
 
 from .program import dotted, norm
-from .calls import params_of, names_in
+from .calls import params_of
+
+_CONTAINER_CALLS = ('dict', 'OrderedDict', 'defaultdict', 'list', 'set', 'WeakValueDictionary', 'weakref.WeakValueDictionary',
+                    'collections.OrderedDict', 'collections.defaultdict')
 
 
-def _closure(fn):
+def _is_container(v):
+    return isinstance(v, (ast.Dict, ast.List, ast.Set)) or (isinstance(v, ast.Call) and dotted(v.func) in _CONTAINER_CALLS)
+
+
+def _value_edges(fn):
+    """local name -> list of expressions it is (flow-insensitively) computed from."""
     edges = {}
 
     def add(t, v):
@@ -23,9 +34,9 @@ def _closure(fn):
         while isinstance(base, (ast.Subscript, ast.Attribute)):
             base = base.value
         if isinstance(base, ast.Name):
-            edges.setdefault(base.id, set()).update(names_in(v))
+            edges.setdefault(base.id, []).append(v)
             if isinstance(t, ast.Subscript):
-                edges[base.id].update(names_in(t.slice))
+                edges[base.id].append(t.slice)
     for st in ast.walk(fn):
         if isinstance(st, ast.Assign):
             for t in st.targets:
@@ -41,57 +52,119 @@ def _closure(fn):
     return edges
 
 
-def _deps(fn, expr, params, edges):
-    seen, out, work = set(), set(), list(names_in(expr))
-    while work:
-        n = work.pop()
-        if n in seen:
-            continue
-        seen.add(n)
-        if n in params:
-            out.add(n)
-        work.extend(edges.get(n, ()))
+def _uses(expr, params, edges):
+    """Set of (param, attribute or None): how the expression depends on the parameters, following locals."""
+    out, seen = set(), set()
+
+    def visit(e):
+        attr_of = {}
+        for n in ast.walk(e):
+            if isinstance(n, ast.Attribute) and isinstance(n.value, ast.Name):
+                attr_of[id(n.value)] = n.attr
+        for n in ast.walk(e):
+            if isinstance(n, ast.Name):
+                if n.id in params:
+                    out.add((n.id, attr_of.get(id(n))))
+                elif n.id in edges and n.id not in seen:
+                    seen.add(n.id)
+                    for v in edges[n.id]:
+                        visit(v)
+    visit(expr)
     return out
 
 
+def _looks_up(fn, cont):
+    """The function also reads the container it stores into (lookup before compute): the memo idiom."""
+    txt = norm(cont)
+    for n in ast.walk(fn):
+        if isinstance(n, ast.Subscript) and isinstance(n.ctx, ast.Load) and norm(n.value) == txt:
+            return True
+        if isinstance(n, ast.Compare) and any(isinstance(o, (ast.In, ast.NotIn)) for o in n.ops) and any(norm(c) == txt for c in n.comparators):
+            return True
+        if isinstance(n, ast.Call) and isinstance(n.func, ast.Attribute) and n.func.attr in ('get', 'setdefault') and norm(n.func.value) == txt:
+            return True
+    return False
+
+
+def _judge(run, rule, mi, name, fn, target, value, st, cont_txt, kind, edges, params, memo=True):
+    run.subject(rule)
+    ku = _uses(target.slice, params, edges)
+    vu = _uses(value, params, edges)
+    kd, vd = {p for p, a in ku}, {p for p, a in vu}
+    missing = sorted(vd - kd)
+    if missing:
+        run.fail(rule, '%s|%s|cache-key:%s' % (mi.name, name, cont_txt), mi.relpath, st.lineno,
+                 "%s stores %s in the %s container %s under the key '%s', but the stored value also depends on the "
+                 "argument(s) %s: a later call that differs only in %s gets the stale entry, so the result depends on what was "
+                 "computed before" % (name, norm(value)[:40], kind, cont_txt, norm(target.slice), missing, missing[0]))
+        return
+    coarse = []
+    for p in sorted(kd & vd) if memo else ():
+        if (p, None) in ku:
+            continue
+        kattrs = {a for q, a in ku if q == p}
+        vattrs = {a for q, a in vu if q == p}
+        if None in vattrs or not vattrs <= kattrs:
+            coarse.append((p, sorted(kattrs), sorted(a or '<whole object>' for a in vattrs - kattrs)))
+    if coarse:
+        p, ka, va = coarse[0]
+        run.fail(rule, '%s|%s|cache-key-coarse:%s' % (mi.name, name, cont_txt), mi.relpath, st.lineno,
+                 "%s stores %s in the %s container %s under a key that contains only %s of the argument '%s', while the stored value is "
+                 "computed from %s: two arguments that agree on %s share one entry, so the result depends on which was asked for first"
+                 % (name, norm(value)[:40], kind, cont_txt, ['%s.%s' % (p, a) for a in ka], p, va, ka))
+        return
+    run.ok(rule, '%s cache %s' % (name, cont_txt), "key '%s' covers %s" % (norm(target.slice), sorted(vd)))
+
+
 def check_caches(run, modules, rule, functions=None):
-    """modules: iterable of ModuleInfo. Reports stores into module-level containers whose key misses a dependency."""
-    run.describe(rule, 'values cached in module-level containers are keyed by every parameter they depend on (results depend on the arguments only)')
+    """modules: iterable of ModuleInfo. Reports stores into shared containers whose key misses a dependency."""
+    run.describe(rule, 'values cached in module-level or instance-held containers are keyed by every parameter they depend on, at the '
+                       'granularity the value uses (results depend on the arguments only)')
     nstores = 0
     ncont = 0
     for mi in modules:
-        containers = {n for n, v in mi.assigns.items()
-                      if isinstance(v, (ast.Dict, ast.List, ast.Set)) or (isinstance(v, ast.Call) and dotted(v.func) in ('dict', 'OrderedDict', 'defaultdict', 'list', 'set', 'WeakValueDictionary', 'weakref.WeakValueDictionary'))}
+        containers = {n for n, v in mi.assigns.items() if _is_container(v)}
         ncont += len(containers)
-        fns = list(mi.functions.items())
+        fns = list((n, f, None) for n, f in mi.functions.items())
         for cname, cnode in mi.classes.items():
+            inst = set()
             for f in cnode.body:
                 if isinstance(f, ast.FunctionDef):
-                    fns.append(('%s.%s' % (cname, f.name), f))
-        for name, fn in fns:
+                    for st in ast.walk(f):
+                        if isinstance(st, ast.Assign) and _is_container(st.value):
+                            for t in st.targets:
+                                if isinstance(t, ast.Attribute) and isinstance(t.value, ast.Name) and t.value.id == 'self':
+                                    inst.add(t.attr)
+            ncont += len(inst)
+            for f in cnode.body:
+                if isinstance(f, ast.FunctionDef):
+                    fns.append(('%s.%s' % (cname, f.name), f, inst))
+        for name, fn, inst in fns:
             if functions is not None and name not in functions:
                 continue
-            if not containers:
+            if not containers and not inst:
                 continue
             params = set(params_of(fn)) - {'self', 'cls'}
+            if not params:
+                continue
             edges = None
             for st in ast.walk(fn):
-                if isinstance(st, ast.Assign) and isinstance(st.targets[0], ast.Subscript) and isinstance(st.targets[0].value, ast.Name) \
-                        and st.targets[0].value.id in containers:
-                    t = st.targets[0]
-                    if edges is None:
-                        edges = _closure(fn)
-                    nstores += 1
-                    run.subject(rule)
-                    kd = _deps(fn, t.slice, params, edges)
-                    vd = _deps(fn, st.value, params, edges)
-                    missing = sorted(vd - kd)
-                    if missing:
-                        run.fail(rule, '%s|%s|cache-key:%s' % (mi.name, name, t.value.id), mi.relpath, st.lineno,
-                                 "%s stores %s in the module-level container %s under the key '%s', but the stored value also depends on the "
-                                 "argument(s) %s: a later call that differs only in %s gets the stale entry, so the result depends on what was "
-                                 "computed before" % (name, norm(st.value)[:40], t.value.id, norm(t.slice), missing, missing[0]))
-                    else:
-                        run.ok(rule, '%s cache %s' % (name, t.value.id), "key '%s' covers %s" % (norm(t.slice), sorted(vd)))
+                if not (isinstance(st, ast.Assign) and isinstance(st.targets[0], ast.Subscript)):
+                    continue
+                t = st.targets[0]
+                b = t.value
+                if isinstance(b, ast.Name) and b.id in containers:
+                    cont_txt, kind = b.id, 'module-level'
+                elif inst and isinstance(b, ast.Attribute) and isinstance(b.value, ast.Name) and b.value.id == 'self' and b.attr in inst:
+                    cont_txt, kind = 'self.' + b.attr, 'instance-held'
+                else:
+                    continue
+                memo = _looks_up(fn, b)
+                if kind == 'instance-held' and not memo:
+                    continue        # a registry the method fills (add/set), not a memo of computed results
+                if edges is None:
+                    edges = _value_edges(fn)
+                nstores += 1
+                _judge(run, rule, mi, name, fn, t, st.value, st, cont_txt, kind, edges, params, memo)
     run.subject(rule)
-    run.ok(rule, 'module-level containers', '%d containers, %d keyed stores from functions' % (ncont, nstores), sample=(nstores == 0))
+    run.ok(rule, 'shared containers', '%d containers, %d keyed stores from functions' % (ncont, nstores), sample=(nstores == 0))
